@@ -255,9 +255,12 @@ def case_meta(workdir, idxs):
     return res
 
 
+REPLAY_MODE = False  # set by main(): a --replay run must not overwrite the files of the run it replays
+
+
 def write_replay(pid, seed, n, record):
     os.makedirs(REPLAYS, exist_ok=True)
-    p = os.path.join(REPLAYS, "%s-%s-%d.json" % (pid, seed, n))
+    p = os.path.join(REPLAYS, "%s-%s-%s%d.json" % (pid, seed, "r" if REPLAY_MODE else "", n))
     with open(p, "w") as f:
         json.dump(record, f, indent=1, default=str)
     return p
@@ -280,6 +283,8 @@ def main(argv):
     ap.add_argument("--dev", action="store_true", help="(development) restrict the forbidden-vernacular scan to Lib/ and this property's files")
     a = ap.parse_args(argv)
     pid = a.id
+    global REPLAY_MODE
+    REPLAY_MODE = bool(a.replay)
     t0 = time.time()
     meta = load_meta(pid)
     known = load_known(pid)
